@@ -327,6 +327,7 @@ const smtPreludeFull = `(set-option :produce-models true)
 (assert (forall ((s Str) (a Int) (b Int) (i Int)) (! (=> (and (<= 0 a) (<= 0 i) (< i (- b a)) (<= b (slen s))) (= (sat (ssub s a b) i) (sat s (+ a i)))) :pattern ((sat (ssub s a b) i)))))
 (assert (forall ((a Str) (b Str)) (! (= (slen (scat a b)) (+ (slen a) (slen b))) :pattern ((scat a b)))))
 (assert (forall ((a Str) (b Str) (i Int)) (! (=> (<= 0 i) (= (sat (scat a b) i) (ite (< i (slen a)) (sat a i) (sat b (- i (slen a)))))) :pattern ((sat (scat a b) i)))))
+(define-fun-rec sumlen1 ((h (Array Int Str)) (p Int) (k Int)) Int (ite (<= k 0) 0 (+ (sumlen1 h p (- k 1)) (slen (select h (+ p (- k 1)))) 1)))
 (define-fun goDiv ((a Int) (b Int)) Int (ite (>= a 0) (ite (> b 0) (div a b) (- (div a (- b)))) (ite (> b 0) (- (div (- a) b)) (div (- a) (- b)))))
 (define-fun goMod ((a Int) (b Int)) Int (- a (* b (goDiv a b))))
 `
